@@ -26,6 +26,9 @@ type C04Step struct {
 	// Join: a new subscriber starts at the current tip (an index it "previously
 	// reached" with the ledger of that tip).
 	Join bool `json:"join,omitempty"`
+	// Listen: k>0 registers another OnReorg listener; k<0 cancels the live
+	// listener selected by -k (subscribers come and go while the node runs).
+	Listen int `json:"listen,omitempty"`
 }
 
 // C04Case: history + subscribers.
@@ -72,6 +75,13 @@ func genC04(t *rapid.T) C04Case {
 		}
 		if kit.Chance(t, 8, "joinroll") {
 			c.Steps = append(c.Steps, C04Step{Join: true})
+		}
+		if kit.Chance(t, 18, "listenroll") {
+			if kit.Chance(t, 60, "listen") {
+				c.Steps = append(c.Steps, C04Step{Listen: 1})
+			} else {
+				c.Steps = append(c.Steps, C04Step{Listen: -rapid.IntRange(1, 12).Draw(t, "which")})
+			}
 		}
 	}
 	return c
@@ -284,6 +294,21 @@ func runC04(c C04Case, cs *kit.CaseStats) error {
 	var callbacks []types.ChainIndex
 	cancel := node.CM.OnReorg(func(ci types.ChainIndex) { callbacks = append(callbacks, ci) })
 	defer cancel()
+	// further listeners that are registered and cancelled during the case
+	type listener struct {
+		serial    int
+		cancel    func()
+		got       []types.ChainIndex
+		cancelled bool
+	}
+	var listeners []*listener
+	defer func() {
+		for _, l := range listeners {
+			if !l.cancelled {
+				l.cancel()
+			}
+		}
+	}()
 	known := func(id types.BlockID) bool { _, ok := node.CM.State(id); return ok }
 
 	poll := func(si int, s *shadow, maxN int) error {
@@ -371,6 +396,10 @@ func runC04(c C04Case, cs *kit.CaseStats) error {
 			}
 			before := node.CM.Tip()
 			ncb := len(callbacks)
+			lgot := make([]int, len(listeners))
+			for i, l := range listeners {
+				lgot[i] = len(l.got)
+			}
 			var serr error
 			if validated {
 				for _, b := range blocks {
@@ -392,6 +421,17 @@ func runC04(c C04Case, cs *kit.CaseStats) error {
 			} else if len(got) != 0 {
 				return fmt.Errorf("%s: notified although the tip did not change", where)
 			}
+			for i, l := range listeners {
+				lg := l.got[lgot[i]:]
+				switch {
+				case l.cancelled && len(lg) != 0:
+					return fmt.Errorf("%s: listener #%d was notified (%v) after it had been cancelled", where, l.serial, lg)
+				case !l.cancelled && after != before && (len(lg) != 1 || lg[0] != after):
+					return fmt.Errorf("%s: listener #%d (registered while the node was running, still subscribed; %d listeners were registered so far) got %v instead of exactly one notification with the new tip", where, l.serial, len(listeners), lg)
+				case !l.cancelled && after == before && len(lg) != 0:
+					return fmt.Errorf("%s: listener #%d notified although the tip did not change", where, l.serial)
+				}
+			}
 			if aerr := node.Audit(); aerr != nil {
 				return fmt.Errorf("%s: %w", where, aerr)
 			}
@@ -399,6 +439,29 @@ func runC04(c C04Case, cs *kit.CaseStats) error {
 			s := subs[st.Poll.Sub%len(subs)]
 			if err := poll(si, s, max(1, st.Poll.Max)); err != nil {
 				return err
+			}
+		case st.Listen > 0:
+			if len(listeners) < 12 {
+				l := &listener{serial: len(listeners) + 1}
+				l.cancel = node.CM.OnReorg(func(ci types.ChainIndex) { l.got = append(l.got, ci) })
+				listeners = append(listeners, l)
+				cs.Class("listener-registered-mid-run")
+			}
+		case st.Listen < 0:
+			var live []*listener
+			for _, l := range listeners {
+				if !l.cancelled {
+					live = append(live, l)
+				}
+			}
+			if len(live) > 0 {
+				l := live[(-st.Listen)%len(live)]
+				l.cancel()
+				l.cancelled = true
+				cs.Class("listener-cancelled-mid-run")
+				if l != live[len(live)-1] {
+					cs.Class("listener-cancelled-that-is-not-the-newest")
+				}
 			}
 		case st.Join:
 			if tn := node.TipNode(); tn != nil && tn.Ledger != nil && len(subs) < 6 {
@@ -429,7 +492,7 @@ func runC04(c C04Case, cs *kit.CaseStats) error {
 
 var c04Prop = kit.Prop[C04Case]{
 	ID:   "C04",
-	Rule: "histories as in C02 interleaved with polls of 1..6 subscribers (starting from nothing, or joining at a tip they 'previously reached') with chunk sizes 1, 2, 3, 7, 1000, some left behind on stale branches for many steps. Every poll result is checked as a path (reverts start at the subscriber's index, undo only off-chain blocks, each leads to the parent; applies continue from there along the best chain; never more than requested, never fewer unless the tip is reached) and as content: a shadow ledger folded only from the returned diffs and proof updates (the canonical apply/revert fold) must equal the reference ledger of the index reached after every single update - element sets, values, leaf indices and Merkle proof bytes. OnReorg must fire exactly once with the new tip per call that moved the tip and never otherwise. At the end every subscriber must reach the tip by polling. Non-trivial = a poll result with reverts and applies, a chunk boundary inside a reorg path, or a subscriber >= 2 blocks deep on a stale branch.",
+	Rule: "histories as in C02 interleaved with polls of 1..6 subscribers (starting from nothing, or joining at a tip they 'previously reached') with chunk sizes 1, 2, 3, 7, 1000, some left behind on stale branches for many steps. Every poll result is checked as a path (reverts start at the subscriber's index, undo only off-chain blocks, each leads to the parent; applies continue from there along the best chain; never more than requested, never fewer unless the tip is reached) and as content: a shadow ledger folded only from the returned diffs and proof updates (the canonical apply/revert fold) must equal the reference ledger of the index reached after every single update - element sets, values, leaf indices and Merkle proof bytes. OnReorg must fire exactly once with the new tip per call that moved the tip and never otherwise - for the listener registered at the start and for up to 12 more that are registered and cancelled (any of them, not only the newest) while the history runs; a cancelled listener is never called again. At the end every subscriber must reach the tip by polling. Non-trivial = a poll result with reverts and applies, a chunk boundary inside a reorg path, or a subscriber >= 2 blocks deep on a stale branch.",
 	Assumptions: []string{
 		"subscriber start indices are the zero index or indices that subscriber reached earlier (never-applied fork blocks carry no supplement and are legitimately refused)",
 		"sequential mode: one goroutine submits and polls; callbacks are therefore ordered",
